@@ -50,6 +50,6 @@ package dlog
 // Raw prints the message: uncoloured as is, or coloured such that the plain
 // projection of what is printed equals the message.
 //@ func (*DLog).Raw
-//@   assigns g_printedStr
+//@   assigns g_printedStr, g_stdout, reach(d.logger)
 //@   effect g_printedStr == old(g_printedStr) + message
 //@   ensures [returns-message] result == message
